@@ -201,13 +201,16 @@ def check_case(case):
             if h[0] == di and h[1] not in need:
                 need.append(h[1])
         b0 = baseline(docs[di], need, 0)
-        b1 = baseline(docs[di], need, 1)
+        # the document that carries several different codes at one place is tried under more hash seeds
+        for hs in ((1, 2) if case.get('doc_types', [''] * (di + 1))[di].endswith('+several-codes-at-one-place') else (1,)):
+            b1 = baseline(docs[di], need, hs)
+            for op in need:
+                k = op_key(op)
+                if b0[k] != b1[k]:
+                    out.fail('hash-seed-dependence:%s:%s' % (op['kind'], '+'.join(diff_keys(b0[k], b1[k]))),
+                             'document #%d, %s: results under PYTHONHASHSEED=0 and =%d differ in %r' % (di, k, hs, diff_keys(b0[k], b1[k])))
         for op in need:
-            k = op_key(op)
-            if b0[k] != b1[k]:
-                out.fail('hash-seed-dependence:%s:%s' % (op['kind'], '+'.join(diff_keys(b0[k], b1[k]))),
-                         'document #%d, %s: results under PYTHONHASHSEED=0 and =1 differ in %r' % (di, k, diff_keys(b0[k], b1[k])))
-            base[(di, k)] = b0[k]
+            base[(di, op_key(op))] = b0[op_key(op)]
     shared = pyx12.params.params()
     seen = set()
     for step, (di, op, use_shared) in enumerate(hist):
@@ -305,6 +308,19 @@ def make_pool(seed, shard, size=8):
         docs.append(doc.text())
         types.append(e['file'])
         lids.append(cands)
+    # one document in which one place carries several different codes: a segment with a leading blank AND a trailing separator
+    # (two segment-level codes), an interchange header with two invalid qualifiers and a TA1 requested (two interchange-level
+    # codes) - whatever order such codes are written in must not depend on the interpreter's hash seed
+    for j_, t_ in enumerate(docs):
+        lines = t_.split('~\n')
+        body = [i for i, ln in enumerate(lines) if ln[:3] not in ('ISA', 'GS*', 'ST*', 'SE*', 'GE*', 'IEA') and ln and not ln.startswith(' ')]
+        if len(body) > 2 and lines[0].startswith('ISA*') and '*ZZ*SENDER' in lines[0] and '*0*P*' in lines[0]:
+            i = body[len(body) // 2]
+            lines[i] = ' ' + lines[i] + '*'
+            lines[0] = lines[0].replace('*ZZ*SENDER', '*XX*SENDER').replace('*ZZ*RECEIVER', '*YY*RECEIVER').replace('*0*P*', '*1*P*')
+            docs[j_] = '~\n'.join(lines)
+            types[j_] = types[j_] + '+several-codes-at-one-place'
+            break
     fx = fixtures.all_texts()
     for j in range(size - len(docs)):
         if not fx:
